@@ -1,8 +1,8 @@
 package rules
 
 import (
-	"strings"
 	"cachelint/internal/core"
+	"strings"
 
 	"golang.org/x/tools/go/ssa"
 )
@@ -33,13 +33,15 @@ type LockFacts struct {
 func lockFacts(r *Run, f *ssa.Function, sp core.Spec) *LockFacts {
 	lf := &LockFacts{F: f, Spec: sp, At: map[ssa.Instruction]map[LS]bool{}, RootOf: map[string]ssa.Value{}}
 	m := &core.Machine[LS]{P: r.P, Fn: f, Spec: sp, Inline: helperInline(r)}
-	m.Step = func(ctx *core.Ctx[LS], s LS, in ssa.Instruction) []LS {
+	m.Visit = func(ctx *core.Ctx[LS], s LS, in ssa.Instruction) {
 		set := lf.At[in]
 		if set == nil {
 			set = map[LS]bool{}
 			lf.At[in] = set
 		}
 		set[s] = true
+	}
+	m.Step = func(ctx *core.Ctx[LS], s LS, in ssa.Instruction) []LS {
 		if _, ok := in.(*ssa.Defer); ok {
 			if dev := r.M.LockEventOfCall(in.(ssa.CallInstruction)); dev != nil {
 				switch {
